@@ -150,7 +150,7 @@ class Monitor:
                'transp': lambda a: np.asarray(a).T, 'twice': lambda a: 2.0 * a, 'same_opt': approx_eq,
                'notposinf': lambda a: (not np.isnan(a)) and a < np.inf,
                'wavg': lambda n, old, new: (float(n) / float(n + 1)) * old + (1 - float(n) / float(n + 1)) * new,
-               'min': min, 'max': max, 'len': len, 'abs': abs, 'all': all, 'range': range, 'True': True, 'False': False, 'None': None}
+               'min': min, 'max': max, 'len': len, 'abs': abs, 'all': all, 'range': range, 'True': True, 'False': False, 'None': None, 'np': np}
         env['hU_of'] = h_u
         return env
 
@@ -315,7 +315,9 @@ def random_sequences(mon, nseq=120, seed=1):
         x0 = rng.normal(size=n)
         if rng.random() < 0.4:       # scaled variables: (shift, scale) as solve builds them
             sc = (rng.normal(size=n), np.abs(rng.normal(size=n)) + 0.5)
-        mod = Model(npt, x0, rv(), -10 * np.ones(n), 10 * np.ones(n), proj, int(rng.integers(1, 4)), h=h, precondition=bool(rng.integers(0, 2)), scaling_changes=sc)
+        tight = rng.random() < 0.3      # tight bounds: stored steps overshoot them, so the clipped point xpt(k) differs from the stored row
+        lo_b, hi_b = (x0 - 0.6, x0 + 0.6) if tight else (-10 * np.ones(n), 10 * np.ones(n))
+        mod = Model(npt, x0, rv(), lo_b, hi_b, proj, int(rng.integers(1, 4)), h=h, precondition=bool(rng.integers(0, 2)), scaling_changes=sc)
         evn = 1
         for step in range(int(rng.integers(4, 25))):
             if mon.violation:
